@@ -52,6 +52,8 @@ def specs_for(rng, thorough):
     out.append(dict(family="billing", profile="billing", meter_seed=rng.randrange(1 << 20), kind=rng.choice(kinds[:3])))
     out.append(dict(family="hourly", meter_seed=rng.randrange(1 << 10), seed=0))
     out.append(dict(family="hourly", meter_seed=rng.randrange(1 << 10), seed=rng.choice([1, 42, 2 ** 31])))
+    # the CalTRACK hourly family (fresh processes differ in their string-hash seed: nothing may depend on set / dict-of-str iteration order)
+    out.append(dict(family="caltrack", meter_seed=rng.randrange(1 << 10)))
     # the non-default iterative path (adaptive sample weights): several ElasticNet solves per fit
     out.append(dict(family="hourly", meter_seed=rng.randrange(1 << 10), seed=3, adaptive=True))
     if thorough:
@@ -112,12 +114,14 @@ def run(ctx):
             c03_worker.fit_spec(dict(other, np_seed=5))
             runs["in_process_after_other_fit"] = c03_worker.fit_spec(dict(spec, np_seed=2))
             # (2b) the SAME model object fitted and used for another meter first (a portfolio loop re-using one object)
-            runs["in_process_reused_model_object"] = c03_worker.fit_spec(dict(spec, np_seed=6, reuse_object=True))
+            if spec["family"] != "caltrack":
+                runs["in_process_reused_model_object"] = c03_worker.fit_spec(dict(spec, np_seed=6, reuse_object=True))
         except Exception as e:  # noqa
             res["oracle_failures"].append(dict(case=spec, clause="fit_runs", detail=dict(error=f"{type(e).__name__}: {e}"[:300])))
             continue
         # (3) fresh processes: thread-count knobs, warm history, concurrent workers
-        jobs = [("fresh_1_thread", dict(spec, np_seed=3), dict(OMP_NUM_THREADS="1", OPENBLAS_NUM_THREADS="1", MKL_NUM_THREADS="1", NUMBA_NUM_THREADS="1")),
+        jobs = [("fresh_1_thread", dict(spec, np_seed=3), dict(OMP_NUM_THREADS="1", OPENBLAS_NUM_THREADS="1", MKL_NUM_THREADS="1", NUMBA_NUM_THREADS="1", PYTHONHASHSEED="1")),
+                ("fresh_other_hash_seed", dict(spec, np_seed=3), dict(OMP_NUM_THREADS="1", OPENBLAS_NUM_THREADS="1", MKL_NUM_THREADS="1", NUMBA_NUM_THREADS="1", PYTHONHASHSEED="2718")),
                 ("fresh_4_threads_warm", dict(spec, np_seed=4, warm=other), dict(OMP_NUM_THREADS="4", OPENBLAS_NUM_THREADS="4", MKL_NUM_THREADS="4", NUMBA_NUM_THREADS="4"))]
         if thorough or scale > 1:
             jobs += [(f"fresh_concurrent_{i}", dict(spec, np_seed=10 + i), dict(OMP_NUM_THREADS=str(1 + i % 16))) for i in range(6 if not thorough else 14)]
@@ -127,12 +131,28 @@ def run(ctx):
         res["evaluations"] += len(runs)
         ref = runs["in_process_a"]
         sigs.add((tag, len(runs)))
+        # number of BLAS / OpenMP threads each run had ("default" = whatever this process has)
+        threads_of = {"fresh_1_thread": "1", "fresh_other_hash_seed": "1", "fresh_4_threads_warm": "4"}
         for name, r in runs.items():
             if "error" in r:
                 res["oracle_failures"].append(dict(case=spec, clause="fit_runs", detail=dict(run=name, error=r["error"])))
-            elif r["json"] != ref["json"] or r["pred"] != ref["pred"]:
-                res["oracle_failures"].append(dict(case=spec, clause="same_data_settings_seed_same_model",
-                                                   detail=dict(reference_run="in_process_a", differing_run=name, reference=ref, got=r)))
+                continue
+            # compared with a reference run of the SAME thread count where there is one, else with the in-process reference
+            tc = threads_of.get(name, "default")
+            ref_name = "fresh_1_thread" if (tc == "1" and name != "fresh_1_thread" and "json" in runs.get("fresh_1_thread", {})) else "in_process_a"
+            rr = runs[ref_name]
+            if r["json"] != rr["json"] or r["pred"] != rr["pred"]:
+                f_ = dict(case=spec, clause="same_data_settings_seed_same_model",
+                          detail=dict(reference_run=ref_name, differing_run=name, reference=rr, got=r,
+                                      threads=dict(reference=threads_of.get(ref_name, "default"), differing=tc)))
+                # C03-F1: the CalTRACK hourly fit (statsmodels WLS / LAPACK) differs in the last bits with the BLAS thread count —
+                # recognised from the INPUT alone: the family is caltrack and the two runs had different thread counts
+                if spec["family"] == "caltrack" and threads_of.get(ref_name, "default") != tc:
+                    d = res["finding_instances"].setdefault("C03-F1", dict(count=0, example=None))
+                    d["count"] += 1
+                    d["example"] = d["example"] or f_
+                    continue
+                res["oracle_failures"].append(f_)
                 break
         if len(res["samples"]) < 3:
             res["samples"].append(dict(spec=spec, runs={k: v.get("json") for k, v in runs.items()}))
@@ -145,6 +165,13 @@ def run(ctx):
 
 
 def replay_finding(entry):
+    if entry.get("id") == "C03-F1":
+        # the CalTRACK hourly fit under 1 and 4 BLAS threads (same hash seed)
+        spec = dict(entry["witness"]["case"], np_seed=3)
+        env = lambda n: dict(OMP_NUM_THREADS=n, OPENBLAS_NUM_THREADS=n, MKL_NUM_THREADS=n, NUMBA_NUM_THREADS=n, PYTHONHASHSEED="1")  # noqa
+        with ThreadPoolExecutor(max_workers=2) as ex:
+            a, b = list(ex.map(lambda n: run_worker(spec, env(n)), ["1", "4"]))
+        return "json" in a and "json" in b and (a["json"] != b["json"] or a["pred"] != b["pred"])
     return False
 
 
